@@ -323,6 +323,26 @@ def run(ctx):
         for t, k in g.tags.items():
             tags[t] = tags.get(t, 0) + k
         judge(ctx, strip_names(rows) if rng.random() < 0.5 else rows, rng, nontrivial, samples, wf=wf, model_too=True)
+    # histories on ONE node group: a decision and 3..9 edges leaving it, all words from a vocabulary of one or two
+    # reserved words (sheetgen.gen_star_sheet).  FlowParser applies the edges one after the other to the same
+    # RowNodeGroup / NoOpNodeGroup and router: every edge meets the categories - and the invented names - the earlier
+    # ones left behind.  EVERY PREFIX of the sheet (the state after each edge) is judged: the compiled flow against
+    # the meaning of the rows by the verified checker, and against the compiler model with all category names.
+    hist = {}
+    for i in range(n // 5):
+        rng = ctx.rng
+        rows, base, g = sheetgen.gen_star_sheet(rng, rng.choice([3, 4, 5, 7, 9]), clash_names=rng.random() < 0.1)
+        ctx.count("star_sheets")
+        for t, k in g.tags.items():
+            tags[t] = tags.get(t, 0) + k
+        hist[len(rows) - base] = hist.get(len(rows) - base, 0) + 1
+        before = sum(ctx.v.viol_by_key.values()) + sum(ctx.v.known_hits.values())
+        for k in range(base + 1, len(rows) + 1):
+            ctx.count("star_sheet prefixes judged")
+            judge(ctx, rows[:k], rng, nontrivial, samples, wf=True, model_too=True)
+            if sum(ctx.v.viol_by_key.values()) + sum(ctx.v.known_hits.values()) > before:
+                break       # the first edge after which the flow is wrong: longer prefixes repeat it
+    ctx.stats["star sheets by number of edges leaving the decision"] = dict(sorted(hist.items()))
     ctx.stats["reserved names written (collide mode), by kind"] = dict(sorted(tags.items()))
     # node merging through the node name (rows sharing a _nodeId), written deliberately
     for i in range(n // 10):
